@@ -2,6 +2,7 @@
 post-analyses that need more than one case (metamorphic pairs, repeated runs)."""
 import itertools
 import os
+import re
 import random
 import subprocess
 
@@ -66,6 +67,9 @@ C16_ALPHABET = [
     lambda k: ("(d%d, e%d)" % (k, k), "(i32, i32)"), lambda k: ("N(g%d)" % k, "N"),
     lambda k: ("N(h%d, _)" % k, "N"), lambda k: ("S { k%d }" % k, "S"), lambda k: ("&m%d" % k, "&u8"),
     lambda k: ("foo", "u8"), lambda k: ("arg1", "u8"),
+    # raw identifiers where a generated or renamed name could collide with them
+    lambda k: ("N(r#arg%d)" % (k + 1), "N"), lambda k: ("N(r#arg%d)" % (k - 1 if k > 0 else 1), "N"),
+    lambda k: ("N(r#foo_)", "N"), lambda k: ("r#foo", "u8"),
 ]
 
 
@@ -277,6 +281,52 @@ def c17_table():
     return cases
 
 
+def c15_matrix():
+    """documented misuses, each at several places of its input, so that *where* the diagnostic points is exercised"""
+    cases = [(cid.replace("t_", "u_", 1), v, a, it, "") for cid, v, a, it, _ in c17_table()]
+    n = 0
+    lead = {"fn": ["debug = false", "?Send"], "mod": ["debug = false", "?Send"], "trait": ["debug = false", "?Send"], "impl": ["debug = false"]}
+    for opt in DOC_TABLE:
+        for target, (head, item, item_nodeps) in TARGET_ITEMS.items():
+            forms = [opt] if "=" in opt or opt.startswith("?") else [opt, opt + " = true", opt + " = false"]
+            for form in forms:
+                for k in (1, 2):
+                    pre = lead[target][:k]
+                    if target == "impl" and k == 2:
+                        continue
+                    if any(p.split(" ")[0] == form.split(" ")[0] for p in pre):
+                        continue
+                    attr = ", ".join([x for x in [head] + pre + [form] if x])
+                    it = item_nodeps if opt == "no_deps" and not form.endswith("false") else item
+                    cases.append(("um%d_%s" % (n, target), "plain", attr, it, ""))
+                    n += 1
+    bad = {
+        "norecv": "fn bad()", "selfrecv": "fn bad(&self, a: u8)", "selfattr": "fn bad(#[a] self: Box<Self>)",
+        "qself": "fn bad(d: &<App as Q>::T)", "leadcolon": "fn bad(d: & &'static mut ::app::App)",
+        "concrete": "fn bad(#[x] App(y): &app::App, z: u8)", "concrete2": "fn bad<T>(d: &(u8, T)) -> T",
+    }
+    good = ["fn g0<D>(d: &D) {}", "fn g1(d: &impl A) -> u8 { 1 }"]
+    for name, sig in bad.items():
+        cases.append(("us_%s_fn" % name, "plain", "pub(crate) Foo", "#[inline] pub %s {}" % sig, ""))
+        for pos in range(3):
+            fns = ["pub " + g for g in good]
+            fns.insert(min(pos, len(fns)), "#[doc = \"x\"] pub(crate) %s {}" % sig)
+            cases.append(("us_%s%d_mod" % (name, pos), "plain", "Foo", "#[a] pub mod m { fn private() {} %s struct S; }" % " ".join(fns), ""))
+            ifns = list(good)
+            ifns.insert(min(pos, len(ifns)), "#[doc = \"x\"] %s {}" % sig)
+            cases.append(("us_%s%d_impl" % (name, pos), "plain", "ref" if pos == 1 else "", "#[a] impl q::TrImpl<u8> for X<'static> { const C: u8 = 1; %s }" % " ".join(ifns), ""))
+    for members in ["fn a(&self); const X: u8;", "const X: u8 = 1; fn a(&self);", "type T; fn a(&self); #[x] mac!{} fn b(&self);"]:
+        for attr in ["", "debug = false", "TrImpl, delegate_by = ref"]:
+            cases.append(("ut%d_trait" % n, "plain", attr, "#[doc = \"t\"] pub unsafe trait Tr<T: A>: B where T: C { %s }" % members, ""))
+            n += 1
+    for attr in ["delegate_by = Custom", "debug = false, delegate_by = Custom", "delegate_by = ref, ?Send, delegate_by = Custom",
+                 "TrImpl", "pub TrImpl", "TrImpl, delegate_by = Self", "TrImpl, debug = false", "TrImpl delegate_by = Custom, export"]:
+        cases.append(("ud%d_trait" % n, "plain", attr, "trait Tr { fn a(&self); }", ""))
+        n += 1
+    cases.append(("uu_mod", "plain", "Foo", "#[a] pub(crate) unsafe mod m { pub fn f<D>(d: &D) {} }", ""))
+    return cases
+
+
 # ------------------------------------------------------------------------------------------------
 # plans
 # ------------------------------------------------------------------------------------------------
@@ -295,7 +345,7 @@ def plan(prop, tier, seed):
         max_len = 3 if tier == "quick" else 4
         lists = c16_lists(max_len)
         cases += lists
-        rule += " Exhaustive: every parameter-pattern list up to length %d over the property's 12-letter alphabet (%d lists)." % (max_len, len(lists))
+        rule += " Exhaustive: every parameter-pattern list up to length %d over the property's 12-letter alphabet extended by 4 raw-identifier collision letters (%d lists)." % (max_len, len(lists))
         exhaustive = True
         weights = {"fn": 6, "mod": 3, "trait": 2, "impl": 2, "malformed": 1}
     elif prop == "C10":
@@ -316,6 +366,11 @@ def plan(prop, tier, seed):
         rule += " Metamorphic pairs (%d): bare vs `= true`, `= false` vs omitted, permuted option order, macro variant vs explicit option; the documented option table (%d single-option probes on fn, mod, trait, impl)." % (len(pairs), len(table))
     elif prop == "C15":
         weights = {"fn": 2, "mod": 2, "trait": 2, "impl": 2, "malformed": 8}
+        mat = c15_matrix()
+        cases += mat
+        rule += (" The misuse matrix (%d cases): every option in every form on every target (documented or not), each "
+                 "preceded by 0-2 accepted options, and every signature-level misuse at function positions 0-2 of a "
+                 "module / impl block; each diagnostic is compared by message and by the leaf range it points at.") % len(mat)
     elif prop == "C08":
         weights = {"fn": 0, "mod": 10, "trait": 0, "impl": 0, "malformed": 1}
     elif prop in ("C06", "C09"):
@@ -327,6 +382,88 @@ def plan(prop, tier, seed):
     cases += g.mix(n, weights)
     pl.update({"cases": cases, "rule": rule, "exhaustive": exhaustive})
     return pl
+
+
+# ------------------------------------------------------------------------------------------------
+# C20: ambient inputs of the expanding process
+# ------------------------------------------------------------------------------------------------
+ENV_CALL = re.compile(r'(?:env::var(?:_os)?|option_env!|env!)\s*\(\s*"([^"]+)"')
+
+
+def ensure_shim():
+    src = os.path.join(runner.ROOT, "tools", "shim", "ambient_shim.c")
+    so = os.path.join(runner.ROOT, "work", "ambient_shim.so")
+    if not os.path.exists(so) or os.path.getmtime(so) < os.path.getmtime(src):
+        os.makedirs(os.path.dirname(so), exist_ok=True)
+        p = subprocess.run(["cc", "-shared", "-fPIC", "-O1", "-o", so, src, "-ldl"], stdout=subprocess.PIPE, stderr=subprocess.STDOUT, text=True)
+        if p.returncode != 0:
+            return None
+    return so
+
+
+def env_names_in_source():
+    names = set()
+    for root in (os.path.join(runner.REPO, "entrait_macros", "src"), os.path.join(runner.REPO, "src")):
+        for d, _, fs in os.walk(root):
+            for f in fs:
+                if f.endswith(".rs"):
+                    names.update(ENV_CALL.findall(open(os.path.join(d, f), errors="replace").read()))
+    return names
+
+
+def ambient_audit(lines, base, workdir, tier):
+    """Runs the corpus again in processes whose ambient inputs are observed (getenv log) and perturbed
+    (every variable the process reads or the source names set / unset; wall clock and monotonic clock
+    shifted; process id changed) and compares every expansion with the base run."""
+    exe = os.path.join(runner.HARNESS, "target", "debug", "entrait_verif_harness")
+    tsv = os.path.join(workdir, "ambient.tsv")
+    open(tsv, "w").write("\n".join(lines) + "\n")
+    info = {"shim": False, "env_read": [], "env_named_in_source": sorted(env_names_in_source()), "runs": []}
+    failing = []
+    so = ensure_shim()
+
+    def run(tag, extra, drop=()):
+        out = os.path.join(workdir, "ambient_%s.cases" % tag)
+        env = dict(os.environ)
+        for k in drop:
+            env.pop(k, None)
+        env.update(extra)
+        if so:
+            env["LD_PRELOAD"] = so
+        subprocess.run([exe, tsv, out, "8"], check=True, env=env, cwd=workdir, stdout=subprocess.DEVNULL)
+        other = load_real(out)
+        info["runs"].append(tag)
+        for cid, rp in base.items():
+            if other.get(cid) != rp:
+                return cid
+        return None
+
+    names = set(info["env_named_in_source"])
+    if so:
+        info["shim"] = True
+        log = os.path.join(workdir, "ambient_env.log")
+        if os.path.exists(log):
+            os.remove(log)
+        bad = run("observe", {"ENTRAIT_VERIF_ENVLOG": log})
+        if bad:
+            failing.append((bad, "expansion differs when the process is merely observed (LD_PRELOAD shim)"))
+        read = sorted(set(open(log).read().split())) if os.path.exists(log) else []
+        info["env_read"] = read
+        names.update(read)
+        bad = run("clock_pid", {"ENTRAIT_VERIF_TIME_SHIFT": "333333333", "ENTRAIT_VERIF_PID_XOR": "21845"})
+        if bad:
+            failing.append((bad, "expansion depends on the clock or the process id (clock shifted by 333333333 s, pid xor 21845)"))
+    for n in sorted(names):
+        if n.startswith("ENTRAIT_VERIF_") or n in ("LD_PRELOAD",):
+            continue
+        bad = run("set_" + n, {n: "1"})
+        if bad:
+            failing.append((bad, "expansion depends on the environment variable %s (set to 1 vs %s)" % (n, "its value in the base run" if n in os.environ else "unset")))
+        if n in os.environ:
+            bad = run("unset_" + n, {}, drop=(n,))
+            if bad:
+                failing.append((bad, "expansion depends on the environment variable %s (unset vs set)" % n))
+    return {"info": info, "failing": failing}
 
 
 # ------------------------------------------------------------------------------------------------
@@ -362,7 +499,8 @@ def post(prop, tier, seed, plan_, results, cases_file, workdir, stats):
             if len(t) == 3 and t[2] == "0":
                 n_bad += 1
                 why = "macro panicked" if d.get("real") == "panic" else (
-                    "generated tokens do not parse" if d.get("parsed") == "0" else "documented misuse not rejected with its message")
+                    "generated tokens do not parse" if d.get("parsed") == "0" else
+                    "documented misuse not rejected with its message at its offending tokens (diagnostic points at %s, the model's at %s)" % (d.get("rloc", "?"), d.get("mloc", "?")))
                 res["failing"].append((cid, why))
         stats["c15_bad"] = n_bad
         msgs = {}
@@ -428,6 +566,12 @@ def post(prop, tier, seed, plan_, results, cases_file, workdir, stats):
                     res["failing"].append((cid, "expansion differs between processes (run %d, %d threads, shuffled order)" % (k, threads)))
                     break
         res["coverage"]["reruns"] = runs
+        # ambient inputs: which environment variables does the expanding process read, and does the
+        # expansion change with them, with the wall clock or with the process id?
+        amb = ambient_audit(lines, base, workdir, tier)
+        res["coverage"]["ambient"] = amb["info"]
+        for cid, why in amb["failing"]:
+            res["failing"].append((cid, why))
         # rustc side: the same programs expanded by two separate compiler processes
         import probes
         bins = ["p_c03_sigs", "p_c16_patterns"] if tier == "quick" else \
